@@ -11,6 +11,8 @@ CONSTANTS
   FreshKeys = {"k3","k4"}
   InitSts = {"missing","empty","plain","enc"}
   InitModes = {"secure","loose"}
+  CtorSet = {"new","with_key","unenc"}
+  DirSet = {"none","pre"}
 INVARIANT TypeOK
 INVARIANT KeyCreatedOnce
 INVARIANT OpensUseKeyringKey
